@@ -94,3 +94,8 @@ package xpub
 //@ func (*socket).SendMsg
 //@   before select#1 assert selsends(p.sendq) && held(s.Mutex)
 //@   loop 1 ensures called_since("loop1:head", "Clone") && sel("select#1") != -2
+
+// ---- round 10 (C10 "later calls fail with a closed error"): Send on a closed socket ----
+//@ func (*socket).SendMsg
+//@   ghost wasclosed = s.closed at call:Lock#1
+//@   ensures wasclosed ==> result == protocol.ErrClosed
